@@ -126,6 +126,16 @@ func isAncestorOrSelf(a, n *world.NodeRT) bool {
 	return false
 }
 
+// deafClient: some List call of this run is scripted to ignore its context
+func (t *treeRun) deafClient() bool {
+	for _, v := range t.sc.ListScript {
+		if v == "hang-deaf" {
+			return true
+		}
+	}
+	return false
+}
+
 func (t *treeRun) closedByScenario(n *world.NodeRT) bool {
 	if t.rootDown() {
 		return true
@@ -182,7 +192,7 @@ func runTree(sci interface{}) {
 	}
 	failAt := 0
 	for k, v := range srv.F.ListScript {
-		if v != "" && v != "hang" && (failAt == 0 || k < failAt) {
+		if v != "" && v != "hang" && v != "hang-deaf" && (failAt == 0 || k < failAt) {
 			failAt = k
 		}
 	}
@@ -266,6 +276,22 @@ func (t *treeRun) act(a TAct) {
 		srv.Apply(world.Spec{NS: a.NS, Name: a.Name, Labels: a.Labels})
 	case "delete":
 		srv.Delete(a.NS + "/" + a.Name)
+	case "marathon":
+		// tens of thousands of short-lived subscriptions on one publisher while
+		// older subscribers stay (ids, counters and tables that wrap or grow)
+		pub := h.PublisherOf(t.node(a.Node))
+		if pub == nil {
+			return
+		}
+		for i := 0; i < a.Ms; i++ {
+			s, err := pub.Subscribe()
+			if err != nil {
+				detsim.Fail("api-error", "Subscribe #%d on a running publisher: %v", i, err)
+			}
+			s.Close()
+			<-s.Done()
+		}
+		detsim.Count("probe:subscription-marathon")
 	case "bulk":
 		// hundreds of objects appear (or change) at once
 		for i := 0; i < a.Ms; i++ {
@@ -327,7 +353,25 @@ func (t *treeRun) act(a TAct) {
 	case "close":
 		if a.Node < 0 {
 			t.trigRoot = true
-			h.Ctrl.Close()
+			if !t.deafClient() {
+				h.Ctrl.Close()
+				return
+			}
+			go h.Ctrl.Close() // (Close() waits for the controller to finish, and that waits for the client)
+			detsim.Settle()
+			if srv.DeafHanging > 0 {
+				// a List call that ignores its context is still out: the controller
+				// itself cannot finish, but everything below it is released the moment
+				// shutdown begins
+				detsim.Settle()
+				detsim.Count("probe:root-closed-with-deaf-list-in-flight")
+				for _, n := range h.Nodes {
+					// (a monitor may still be working off callbacks that take time)
+					if !world.WaitClosed(h.DoneOf(n), 30*time.Second) {
+						detsim.Fail("shutdown-not-cascaded", "the controller was closed while a List call that ignores its context is in flight: %s is still running (descendants must not wait for the client)\n%s", n.Name(), dumpLive())
+					}
+				}
+			}
 			return
 		}
 		if n := t.node(a.Node); n != nil {
